@@ -78,4 +78,95 @@ theorem bundle_walk_complete (m : Model) (b b' : Bundle Vals) (h : bundleBuild m
             simp only [Option.some.injEq] at hc
             subst hc; exact hctl
 
+/-- every record of a bundle is valid -/
+def BundleValid (m : Model) (b : Bundle Vals) : Prop :=
+  (∀ hd, b.header = some hd → vErr m .bundleHeader hd = none) ∧
+  (∀ cd ∈ b.checks, CheckValid m cd) ∧ (∀ rd ∈ b.returns, ReturnValid m rd) ∧
+  (∀ c, b.control = some c → vErr m .bundleControl c = none)
+
+theorem fileBundles_valid (m : Model) : ∀ (bs bs' : List (Bundle Vals)), fileBundles m bs = .ok bs' →
+    ∀ b' ∈ bs', BundleValid m b'
+  | [], bs', h, b', hb' => by
+    simp only [fileBundles, Except.ok.injEq] at h
+    subst h; simp at hb'
+  | b :: r, bs', h, b', hb' => by
+    simp only [fileBundles] at h
+    split at h
+    · cases h
+    · split at h
+      · cases h
+      · rename_i b2 hb2
+        split at h
+        · cases h
+        · rename_i rs hrs
+          simp only [Except.ok.injEq] at h
+          subst h
+          simp only [List.mem_cons] at hb'
+          rcases hb' with hb' | hb'
+          · subst hb'
+            have hw := bundle_walk_complete m b b' hb2
+            have hok := bundleBuild_ok m b b' hb2
+            refine ⟨?_, hw.2.1, hw.2.2.1, hw.2.2.2⟩
+            intro hd hh
+            apply hw.1 hd
+            rw [hok] at hh
+            exact hh
+          · exact fileBundles_valid m r rs hrs b' hb'
+
+/-- every record a cash letter holds below its control record is valid, and the cash letter passes the
+container validation the reader runs at its control record (which validates the control record) -/
+def CashLetterValid (m : Model) (cl : CashLetter Vals) : Prop :=
+  (∀ hd, cl.header = some hd → vErr m .cashLetterHeader hd = none) ∧
+  (∀ v ∈ cl.creditItems, vErr m .creditItem v = none) ∧ (∀ v ∈ cl.credits, vErr m .credit v = none) ∧
+  (∀ r ∈ cl.rns, ∃ v, r = some v ∧ vErr m .rns v = none) ∧
+  (∀ b ∈ cl.bundles, BundleValid m b)
+
+theorem fileCashLetters_valid (m : Model) : ∀ (cls cls' : List (CashLetter Vals)), fileCashLetters m cls = .ok cls' →
+    ∀ cl' ∈ cls', CashLetterValid m cl'
+  | [], cls', h, cl', hcl' => by
+    simp only [fileCashLetters, Except.ok.injEq] at h
+    subst h; simp at hcl'
+  | cl :: r, cls', h, cl', hcl' => by
+    simp only [fileCashLetters] at h
+    split at h
+    · cases h
+    · rename_i hv
+      split at h
+      · cases h
+      · rename_i bs hbs
+        split at h
+        · cases h
+        · rename_i rs hrs
+          simp only [Except.ok.injEq] at h
+          subst h
+          simp only [List.mem_cons] at hcl'
+          rcases hcl' with hcl' | hcl'
+          · subst hcl'
+            simp only [or_none, firstErr_none] at hv
+            refine ⟨?_, hv.2.2.1, hv.2.2.2.1, ?_, fileBundles_valid m cl.bundles bs hbs⟩
+            · intro hd hh
+              have hh' : cl.header = some hd := hh
+              have := hv.2.1
+              simpa [hh'] using this
+            · intro r hr
+              have := hv.2.2.2.2 r hr
+              cases r with
+              | none => simp at this
+              | some v => exact ⟨v, rfl, this⟩
+          · exact fileCashLetters_valid m r rs hrs cl' hcl'
+
+/-- **a created file holds only valid records** (file control excepted: its members are computed, and
+the two caller-supplied ones are checked by File.Create itself): the file header, and in every cash
+letter the header, credit items, credits, routing number summaries and every bundle with all its items,
+addenda, image views and its rebuilt control -/
+theorem file_walk_complete (m : Model) (f f' : File Vals) (h : fileCreate m f = .ok f') :
+    vErr m .fileHeader f'.header = none ∧ ∀ cl ∈ f'.cashLetters, CashLetterValid m cl := by
+  obtain ⟨cls, hcls, hf⟩ := fileCreate_ok m f f' h
+  subst hf
+  refine ⟨?_, fileCashLetters_valid m f.cashLetters cls hcls⟩
+  unfold fileCreate at h
+  split at h
+  · cases h
+  · rename_i hh; exact hh
+
 end Icl.C09
